@@ -7,6 +7,7 @@ import (
 	"math/rand"
 	"os"
 	"sort"
+	"strings"
 	"sync"
 	"sync/atomic"
 	"time"
@@ -97,7 +98,7 @@ func init() {
 					for k := 0; k < *opsPer; k++ {
 						n := nodes[rng.Intn(len(nodes))]
 						typ := []string{"a", "b"}[rng.Intn(2)]
-						switch x := rng.Intn(11); {
+						switch x := rng.Intn(12); {
 						case x < 4: // node point write
 							ts := int(tsCounter.Add(1))
 							id := identOf(n, typ, false)
@@ -133,6 +134,13 @@ func init() {
 								}
 							}
 							logEv(map[string]any{"ev": "Ret", "c": cname, "op": k, "ok": err == nil && len(ns) == 1, "res": r, "err": fmt.Sprint(err)})
+						case x == 11: // a request the store refuses (first edge point of an edge without a node type):
+							// answered with an error - logged as a "verify"-kind call that is ok when refused
+							logEv(map[string]any{"ev": "Call", "c": cname, "op": k, "kind": "verify", "id": "", "ts": 0})
+							p := data.Point{Type: data.PointTypeTombstone, Value: 0, Time: time.Now(), Origin: cname}
+							err := client.SendEdgePoint(nc, fmt.Sprintf("ghost-%d-%d-%d", h, c, k), n, p, true)
+							refused := err != nil && !strings.Contains(err.Error(), "timeout")
+							logEv(map[string]any{"ev": "Ret", "c": cname, "op": k, "ok": refused, "res": map[string]int{}, "err": fmt.Sprint(err)})
 						case x == 10: // maintenance request (verification that repairs), served by another subscription
 							logEv(map[string]any{"ev": "Call", "c": cname, "op": k, "kind": "verify", "id": "", "ts": 0})
 							err := client.AdminStoreMaint(nc)
